@@ -31,3 +31,20 @@ def add_corr(rep, name, res, mismatches, nontrivial):
     rep.cov["evaluations"] = rep.cov.get("evaluations", 0) + len(res["cases"])
     rep.cov["distinct_nontrivial"] = rep.cov.get("distinct_nontrivial", 0) + nontrivial
     rep.cov["traces_validated_against_impl"] = rep.cov.get("traces_validated_against_impl", 0) + len(res["cases"])
+
+
+def strict_routing(rep, prop, seed, n, tier):
+    """histories in which no slot changes its owner (migrations begin, keys move, ASK redirections happen): every command's
+    first hop must be the owner of its slot; replies/data/executions as the model says.  Returns a violation dict or None."""
+    res = differential(rep, prop, "c04strict", seed, n, tier, model_modes=["c04"])
+    cases, impl, model = res["cases"], res["impl"], res["models"]["c04"]
+    mm = vlib.diff_lines(impl, model)
+    add_corr(rep, "Histories without a change of owner (migrating slots, ASK redirections): the first hop of every command is the slot's owner; replies, data, executions vs the model",
+             res, mm, len({c for c in cases if " mb " in c and " q " in c}))
+    if not mm:
+        return None
+    i = min(mm, key=lambda j: len(cases[j]))
+    tail = impl[i].split(" || ")[-1]
+    return {"kind": "history", "oracle": "observed '%s' (or other fields differ), expected '%s'" % (tail[:200], model[i].split(" || ")[-1][:200]),
+            "case": {"line": cases[i], "format": "nodes layout 2 # items: q <request> [@ask steps] | mb slot to | mk hexkey"},
+            "impl": impl[i][:4000], "model": model[i][:4000], "failing_cases": len(mm)}
